@@ -63,7 +63,8 @@ class Validate:
     def signature(self, label, info):
         info = info or {}
         sh = self.cfg['shape']
-        sig = {'label': label, 'kind': info.get('kind'), 'callable': self.cfg['kind']}
+        fam = {'wrapped': 'func', 'instance-args': 'instance', 'pmethod': 'method'}.get(self.cfg['kind'], self.cfg['kind'])   # same code path
+        sig = {'label': label, 'kind': info.get('kind'), 'callable': fam if info.get('diagnosed') else self.cfg['kind']}
         if not info.get('diagnosed'):
             sig['shape'] = shape_name(sh)
             sig['partial'] = str(self.cfg.get('partial'))
